@@ -26,7 +26,7 @@ def run(ctx):
     search_checks.suite(ctx, PID, ORACLES, GENS, ctx.budget(1200, 12000), max_n_enum=5)
     extra(ctx)
     import cli_common
-    cli_common.cli_suite(ctx, ctx.budget(20, 200))      # the same through the command line itself
+    cli_common.cli_suite(ctx, ctx.budget(30, 300), focus='nbest')      # the same through the command line itself
     common.conclude(ctx)
 
 
